@@ -80,7 +80,7 @@ private def showSecs (l : List Sec) : String :=
 
 /--
 * `capture.reset fds=<fd>:<file>,… nfiles=<n>` → `ok`   (streams `sys.std*` are the interpreter's originals)
-* `capture.build method=fd|sys|no|tee-sys mods=… ios=… cfgfail=0|1 cfgfilters=…` → `fault=… secs=… tasks=…`
+* `capture.build method=fd|sys|no|tee-sys mods=… ios=… cfgfail=0|1|db cfgfilters=…` → `fault=… secs=… tasks=…`
 * `capture.release` → `ok`   (drop the session, `gc.collect()`)
 * `capture.state` → descriptors 0-2, open count, streams, misc registries
 * `capture.file f=<id>` → content
@@ -96,7 +96,7 @@ def captureHandle (cs : CaptureSt) (cmd : String) (a : Args) : CaptureSt × Stri
   | "capture.build" =>
     match method? (a.get "method"), mods? (a.get "mods"), ios? (a.get "ios"), dots (a.get "cfgfilters") with
     | some m, some mods, some ios, some cf =>
-      let cfg : Cfg := { method := m, cfgFilters := cf, configFails := a.get "cfgfail" == "1" }
+      let cfg : Cfg := { method := m, cfgFilters := cf, configFails := a.get "cfgfail" != "" && a.get "cfgfail" != "0", failsInDatabase := a.get "cfgfail" == "db" }
       let st := runBuild cfg mods ios cs.st
       let tasks := ",".intercalate (st.tasks.map fun t => s!"{t.1}:{t.2}")
       ({ st := st }, s!"fault={if st.w.fault then 1 else 0} secs={showSecs st.secs} tasks={tasks} collectfailed={if st.collectFailed then 1 else 0}")
